@@ -25,6 +25,21 @@ Conventions the oracles are built from (docstrings / the repository's own tests)
   handed back through resume_eigenvalues / resume_eigenvectors.
 
 All files written by the code under test go to a TemporaryDirectory, which is also the cwd during the call.
+
+Sub-checks
+  lanczos_tridiag  T, V of `lanczos_tridiag` (callable matrix, flat / 2-D / 3-D start vector, order <, =, > n) and
+                   `stochastic_logdet_from_lanczos` on the exact quadrature
+  slq_logdet       `stochastic_lq_logdet` at order >= n against mean_z z^T log(A) z for the re-derived probes
+  elbo_jax         nifty.re.estimate_evidence_lower_bound, 2-3 generated option sets per model (+ classic on the same
+                   model and samples)
+  elbo_classic     nifty.cl.estimate_evidence_lower_bound, 2-4 generated option sets per model
+Execution variants of the Lanczos functions: through a jax.jit wrapper that is cached per (n, shape, order, ...)
+signature (matrix, start vector and key are arguments; one XLA compilation per signature) and, more rarely because
+every such call compiles its loop anew, the plain call.
+
+Genuine defect found with this module (fixes/C34_resume_early_stop_with_all_eigenvalues.diff, corpus/C34/): a resumed
+run with n_eigenvalues == number of relevant dofs applied the min_lh_eval early stop although the docstring
+guarantees that all relevant eigenvalues are computed, so one go and resumed differed.
 """
 import functools
 import os
@@ -188,9 +203,6 @@ def _run_tridiag(A, v, shape, order, jit):
     vv = jnp.asarray(v.reshape(shape))
     if jit == "jit":
         T, V = _tridiag_jitted(n, tuple(shape), order)(Aj, vv)
-    elif jit == "nojit":
-        with jax.disable_jit():     # op-by-op execution: lax.fori_loop / cond run as Python control flow
-            T, V = jft.lanczos.lanczos_tridiag(lambda x: (Aj @ x.reshape((n,))).reshape(shape), vv, order=order)
     else:
         T, V = jft.lanczos.lanczos_tridiag(lambda x: (Aj @ x.reshape((n,))).reshape(shape), vv, order=order)
     T, V = np.asarray(T), np.asarray(V)
@@ -272,11 +284,7 @@ def check_lanczos(rec):
         logA = (Q * np.log(lam)) @ Q.T
         want = n * 0.5 * (v @ logA @ v / (v @ v) + v2 @ logA @ v2 / (v2 @ v2))
         stack = jnp.stack([jnp.asarray(T), jnp.asarray(T2)])
-        if rec["jit"] == "nojit":
-            with jax.disable_jit():
-                got = float(jft.stochastic_logdet_from_lanczos(stack, n))
-        else:
-            got = float(jft.stochastic_logdet_from_lanczos(stack, n))
+        got = float(jft.stochastic_logdet_from_lanczos(stack, n))
         close(got, want, "logdet_from_lanczos", tol=1e-9, scale=n * max(1.0, float(np.max(np.abs(np.log(lam))))))
     else:
         classes.append("order_partial")
@@ -315,7 +323,9 @@ def _coeff(n, zeros_ok):
     return st.lists(el, min_size=n, max_size=n)
 
 
-_EXEC = ["jit", "nojit", "jit", "eager", "nojit", "jit"]
+# a call through the cached jax.jit wrapper costs one XLA compilation per signature, a plain (eager) call compiles its
+# lax.fori_loop / scan on every call (1-3 s): the plain call is the rarer variant
+_EXEC = ["jit", "jit", "eager", "jit", "jit", "jit"]
 
 
 @st.composite
@@ -396,9 +406,6 @@ def check_slq(rec):
     if rec["jit"] == "jit":
         # compiled: matrix and key are arguments of one XLA program per (n, order, n_samples, input form)
         got = float(_slq_jitted(n, order, m, form)(Aj, key))
-    elif rec["jit"] == "nojit":
-        with jax.disable_jit():
-            got = float(_slq_call(jft, Aj, n, order, m, form, karg))
     else:
         got = float(_slq_call(jft, Aj, n, order, m, form, karg))
     logA = (Q * np.log(lam)) @ Q.T
@@ -416,7 +423,8 @@ def check_slq(rec):
 
 @st.composite
 def slq_recipes(draw, tier):
-    orth = draw(st.booleans()) and draw(st.booleans())
+    key = draw(st.integers(0, 2 ** 31 - 1000))
+    orth = key % 5 == 0
     if orth:
         rec = draw(_spd_part(2))
         rec["hh"] = rec["hh"] or [[1.0, 0.5][:rec["n"]]]
@@ -425,10 +433,12 @@ def slq_recipes(draw, tier):
         rec = draw(_spd_part(12))
         m = [2, 4, 1, 2][draw(st.integers(0, 3))]
     n = rec["n"]
-    rec.update(m=m, orth=orth, key=draw(st.integers(0, 2 ** 31 - 1000)),
+    rec.update(m=m, orth=orth, key=key,
                order=n + [0, 2, 0][draw(st.integers(0, 2))],
                form=["callable", "matrix", "callable", "matrix_shape0"][draw(st.integers(0, 3))],
                keyform=["int", "array"][draw(st.integers(0, 1))], jit=_EXEC[draw(st.integers(0, 5))])
+    if rec["jit"] == "jit" and rec["form"] == "matrix_shape0":
+        rec["form"] = "matrix"      # same program: keep the number of compiled signatures small
     return rec
 
 
@@ -627,6 +637,45 @@ def _split_point(v, nrel):
     return 1 + v["k"] % (nrel - 1) if nrel >= 2 else 1
 
 
+def _resume_chain(call, space, mod, v, box, idx):
+    """first stage with k1 < n_rel eigenvalues (optionally a second partial stage k1 < k2 < n_rel), every stage
+    resumed from the files the previous one saved; the last stage asks for all relevant eigenvalues and must
+    reproduce the one-go closed form.  call(k, stage, odir, **extra) -> (elbo samples, stats)"""
+    nrel = mod.nrel
+    k1 = nrel if v.get("from_all") else _split_point(v, nrel)
+    stages = [k1]
+    if v.get("two") and nrel - k1 >= 2:
+        stages.append(k1 + 1 + v["k"] % (nrel - k1 - 1))
+    classes = ["resume_two_splits" if len(stages) == 2 else "resume_one_split"]
+    ev = evec = None
+    for j, k in enumerate(stages):
+        odir = os.path.join(box.path, f"out{idx}_{j}")
+        extra = {} if ev is None else dict(resume_eigenvalues=ev, resume_eigenvectors=evec)
+        es, st_ = call(k, j, odir, **extra)
+        tag = f"stage{j}:"
+        if k >= nrel:
+            _oracle_all(es, st_, mod, tag, False)
+        else:
+            _oracle_partial(es, st_, mod, tag)
+        if j == 0 or os.path.isfile(os.path.join(odir, f"metric_{space}_eigenvalues.npy")):
+            # (a resumed stage that stops early before its first batch saves nothing: documented "after each batch")
+            ev, evec = _check_saved(odir, space, mod, tag, k)
+    classes.append("resume_from_all" if ev.size >= nrel else "resume_split_early_stopped" if ev.size < stages[-1]
+                   else "resume_split")
+    odir2 = os.path.join(box.path, f"out{idx}_final") if v["odir"] else None
+    extra = dict(resume_eigenvalues=ev, resume_eigenvectors=evec)
+    if v["how2"] == "compute_all":
+        es, st_ = call(1, len(stages), odir2, compute_all=True, **extra)
+    else:
+        es, st_ = call(nrel, len(stages), odir2, **extra)
+    classes.append("resume_" + v["how2"])
+    _oracle_all(es, st_, mod, "resumed:", False)
+    if odir2 and ev.size < nrel:
+        ev2, _ = _check_saved(odir2, space, mod, "resumed:", nrel)
+        require(ev2.size == nrel, "resumed:saved_count_all", f"{ev2.size} saved, {nrel} relevant")
+    return classes
+
+
 def _variant_space(mod, v):
     sp = v["space"]
     if sp == "auto":
@@ -748,24 +797,11 @@ def _run_jax_variant(mod, lh, samples, v, box, idx):
             else:
                 classes.append("slq_remainder_skipped_no_gap")
     else:  # resume
-        k1 = nrel if v.get("from_all") else _split_point(v, nrel)
-        es1, st1 = _jax_call(lh, samples, k1, v, odir)
-        (_oracle_all if k1 >= nrel else _oracle_partial)(es1, st1, mod, "first_stage:", *((False,) if k1 >= nrel else ()))
-        ev, evec = _check_saved(odir, space, mod, "first_stage:", k1)
-        classes.append("resume_from_all" if ev.size >= nrel else "resume_split_early_stopped" if ev.size < k1
-                       else "resume_split")
-        v2 = dict(v, nb=v["nb2"], jit=v["jit2"])
-        odir2 = os.path.join(box.path, f"out{idx}b") if v["odir"] else None
-        extra = dict(resume_eigenvalues=ev, resume_eigenvectors=evec)
-        if v["how2"] == "compute_all":
-            es, st_ = _jax_call(lh, samples, 1, v2, odir2, compute_all=True, **extra)
-        else:
-            es, st_ = _jax_call(lh, samples, nrel, v2, odir2, **extra)
-        classes.append("resume_" + v["how2"])
-        _oracle_all(es, st_, mod, "resumed:", False)
-        if odir2 and ev.size < nrel:
-            ev2, _ = _check_saved(odir2, space, mod, "resumed:", nrel)
-            require(ev2.size == nrel, "resumed:saved_count_all", f"{ev2.size} saved, {nrel} relevant")
+        def call(k, stage, od, **extra):
+            vs = v if stage == 0 else dict(v, nb=v["nb2"], jit=v["jit2"])
+            return _jax_call(lh, samples, k, vs, od, **extra)
+
+        classes += _resume_chain(call, space, mod, v, box, idx)
     return classes
 
 
@@ -806,7 +842,8 @@ def _jax_variant(draw):
          "jit": draw(st.booleans()), "jit2": draw(st.booleans()), "nb": draw(st.integers(1, 4)),
          "nb2": draw(st.integers(1, 4)), "k": draw(st.integers(0, 11)), "odir": draw(st.booleans()),
          "apt": draw(st.integers(0, 3)) == 0, "how2": ["n_rel", "compute_all", "n_rel"][draw(st.integers(0, 2))],
-         "mle": [None, 4.0, 1e-3, 0.5, None][draw(st.integers(0, 4))], "from_all": draw(st.integers(0, 5)) == 0}
+         "mle": [None, 4.0, 1e-3, 0.5, None][draw(st.integers(0, 4))], "from_all": draw(st.integers(0, 5)) == 0,
+         "two": draw(st.booleans())}
     if method == "slq":
         v["slq"] = {"m": draw(st.integers(2, 5)), "key": draw(st.integers(0, 2 ** 31 - 1)),
                     "extra": [0, 2, 0][draw(st.integers(0, 2))], "jit": draw(st.integers(0, 2)) == 0,
@@ -926,27 +963,10 @@ def check_elbo_classic(rec):
                     if odir:
                         _check_saved(odir, "signal", mod, "", k)
             else:
-                k1 = nrel if v.get("from_all") else _split_point(v, nrel)
-                es1, st1 = _classic_call(ham, sl, k1, v, odir)
-                if k1 >= nrel:
-                    _oracle_all(es1, st1, mod, "first_stage:", False)
-                else:
-                    _oracle_partial(es1, st1, mod, "first_stage:")
-                ev, evec = _check_saved(odir, "signal", mod, "first_stage:", k1)
-                classes.append("resume_from_all" if ev.size >= nrel else "resume_split_early_stopped" if ev.size < k1
-                               else "resume_split")
-                v2 = dict(v, nb=v["nb2"])
-                odir2 = os.path.join(box.path, f"out{i}b") if v["odir"] else None
-                extra = dict(resume_eigenvalues=ev, resume_eigenvectors=evec)
-                if v["how2"] == "compute_all":
-                    es, st_ = _classic_call(ham, sl, 1, v2, odir2, compute_all=True, **extra)
-                else:
-                    es, st_ = _classic_call(ham, sl, nrel, v2, odir2, **extra)
-                classes.append("resume_" + v["how2"])
-                _oracle_all(es, st_, mod, "resumed:", False)
-                if odir2 and ev.size < nrel:
-                    ev2, _ = _check_saved(odir2, "signal", mod, "resumed:", nrel)
-                    require(ev2.size == nrel, "resumed:saved_count_all", f"{ev2.size} saved, {nrel} relevant")
+                def call(k, stage, od, _v=v, **extra):
+                    return _classic_call(ham, sl, k, _v if stage == 0 else dict(_v, nb=_v["nb2"]), od, **extra)
+
+                classes += _resume_chain(call, "signal", mod, v, box, i)
         left = [f for f in os.listdir(box.path) if not f.startswith("out")]
         require(not left, "files_outside_output_directory", f"{left}")
     modes = {v["mode"] for v in rec["variants"]}
@@ -960,7 +980,8 @@ def _classic_variant(draw):
             "nb": draw(st.integers(1, 4)), "nb2": draw(st.integers(1, 4)), "k": draw(st.integers(0, 11)),
             "odir": draw(st.booleans()), "apt": draw(st.integers(0, 3)) == 0, "pass_none": draw(st.booleans()),
             "how2": ["n_rel", "compute_all", "n_rel"][draw(st.integers(0, 2))],
-            "mle": [None, 4.0, 1e-3, 0.5, None][draw(st.integers(0, 4))], "from_all": draw(st.integers(0, 5)) == 0}
+            "mle": [None, 4.0, 1e-3, 0.5, None][draw(st.integers(0, 4))], "from_all": draw(st.integers(0, 5)) == 0,
+            "two": draw(st.booleans())}
 
 
 @st.composite
@@ -971,21 +992,24 @@ def elbo_classic_recipes(draw, tier):
     return rec
 
 
+# seconds per shard before the remaining cases are skipped (never a violation); a loaded machine can be given more
+_BUDGET = float(os.environ.get("VERIF_C34_BUDGET", "70"))
+
 SUBS = [
-    Sub(name="lanczos_tridiag", check=check_lanczos, strategy=lanczos_recipes, quick=96, thorough=6000, shards=16,
-        jax=True, budget_quick=100.0,
+    Sub(name="lanczos_tridiag", check=check_lanczos, strategy=lanczos_recipes, quick=192, thorough=6000, shards=8,
+        jax=True, budget_quick=_BUDGET,
         rule="non-trivial = n >= 3, dense A (>= 1 Householder factor) and >= 3 excited distinct eigenvalues; classes "
              "show full / partial / larger-than-n orders, multiplicities, deficient start vectors, padding"),
-    Sub(name="slq_logdet", check=check_slq, strategy=slq_recipes, quick=96, thorough=6000, shards=16, jax=True,
-        budget_quick=100.0,
+    Sub(name="slq_logdet", check=check_slq, strategy=slq_recipes, quick=192, thorough=6000, shards=8, jax=True,
+        budget_quick=_BUDGET,
         rule="non-trivial = n >= 3, dense A and >= 2 probes; classes show matrix / callable input, int / array keys, "
              "orthogonal probe sets and diagonal matrices (estimate == logdet)"),
     Sub(name="elbo_jax", check=check_elbo_jax, strategy=elbo_jax_recipes, quick=96, thorough=2000, shards=16, jax=True,
-        budget_quick=110.0,
+        budget_quick=_BUDGET,
         rule="non-trivial = N >= 2, n_data >= 2 and (two different modes among the 2-3 generated variants or a "
              "resumed run); classes show spaces, eager/jit, eigsh/slq, split points, rank-deficient responses"),
     Sub(name="elbo_classic", check=check_elbo_classic, strategy=elbo_classic_recipes, quick=240, thorough=8000,
-        shards=8, budget_quick=100.0,
+        shards=8, budget_quick=_BUDGET,
         rule="non-trivial = N >= 2, n_data >= 2 and (two different modes among the 2-4 generated variants or a "
              "resumed run)"),
 ]
